@@ -1516,6 +1516,17 @@ class composite_if(x12_node):
         """
         return True
 
+    def get_path(self):
+        """
+        @return: path - XPath style, the composite addressed as an element of its segment
+        @rtype: string
+        """
+        if self._fullpath:
+            return self._fullpath
+        seg_node = self.parent
+        self._fullpath = seg_node.parent.get_path() + '/' + seg_node.path + '%02i' % (self.seq)
+        return self._fullpath
+
 
 def load_map_file(map_file, param, map_path=None):
     """
